@@ -1,0 +1,134 @@
+//! Verification hooks. Compiled only with `--cfg rs_tftpd_verif`; never part of a
+//! normal build. Provides a shadow [`Instant`] whose clock can be driven by a test
+//! harness, and an event log of worker-internal scalars at their linearization points.
+
+use std::cell::Cell;
+use std::ops::Sub;
+use std::sync::atomic::{AtomicBool, Ordering};
+use std::sync::Mutex;
+use std::thread::{self, ThreadId};
+use std::time::Duration;
+
+static SIMULATED: AtomicBool = AtomicBool::new(false);
+static EVENTS: Mutex<Vec<(ThreadId, Event)>> = Mutex::new(Vec::new());
+
+/// Start of every thread's simulated clock, far enough from zero for `now() - dur`.
+const EPOCH_NANOS: u128 = 1_000_000_000_000_000_000;
+
+thread_local! {
+    static CLOCK: Cell<u128> = const { Cell::new(EPOCH_NANOS) };
+}
+
+/// Worker-internal observation.
+#[derive(Clone, Debug, PartialEq)]
+pub enum Event {
+    /// Scalars of a transfer loop immediately before it waits for the next datagram.
+    Snap {
+        /// `true` for `send_file`, `false` for `receive_file`
+        sending: bool,
+        /// `block_number`
+        block_number: u16,
+        /// `window.len()`
+        window_len: u16,
+        /// `retry_cnt`
+        retry_cnt: u32,
+        /// `filled` (`send_file` only; `true` otherwise)
+        filled: bool,
+    },
+    /// Result of the transfer closure (`Ok` / `Err`), before it is printed.
+    Outcome {
+        /// `true` for `Ok`
+        ok: bool,
+    },
+}
+
+/// Switches every thread's [`Instant`] to its simulated per-thread clock.
+pub fn simulate_time(on: bool) {
+    SIMULATED.store(on, Ordering::SeqCst);
+}
+
+/// Advances the calling thread's simulated clock.
+pub fn advance(dur: Duration) {
+    CLOCK.with(|c| c.set(c.get() + dur.as_nanos()));
+}
+
+/// Records an event for the calling thread.
+pub fn record(event: Event) {
+    EVENTS.lock().unwrap().push((thread::current().id(), event));
+}
+
+/// Records a [`Event::Snap`].
+pub fn snap(sending: bool, block_number: u16, window_len: u16, retry_cnt: u32, filled: bool) {
+    record(Event::Snap {
+        sending,
+        block_number,
+        window_len,
+        retry_cnt,
+        filled,
+    });
+}
+
+/// Records an [`Event::Outcome`].
+pub fn outcome(ok: bool) {
+    record(Event::Outcome { ok });
+}
+
+/// Removes and returns, in order, the events recorded by thread `id`.
+pub fn take(id: ThreadId) -> Vec<Event> {
+    let mut events = EVENTS.lock().unwrap();
+    let mut taken = Vec::new();
+    let mut i = 0;
+    while i < events.len() {
+        if events[i].0 == id {
+            taken.push(events.remove(i).1);
+        } else {
+            i += 1;
+        }
+    }
+    taken
+}
+
+/// Stand-in for [`std::time::Instant`] with the three operations the worker uses.
+#[derive(Clone, Copy, Debug)]
+pub enum Instant {
+    /// Wall clock
+    Real(std::time::Instant),
+    /// Simulated per-thread clock, in nanoseconds
+    Simulated(u128),
+}
+
+impl Instant {
+    /// See [`std::time::Instant::now()`].
+    pub fn now() -> Instant {
+        if SIMULATED.load(Ordering::SeqCst) {
+            Instant::Simulated(CLOCK.with(|c| c.get()))
+        } else {
+            Instant::Real(std::time::Instant::now())
+        }
+    }
+
+    /// See [`std::time::Instant::elapsed()`].
+    pub fn elapsed(&self) -> Duration {
+        match self {
+            Instant::Real(instant) => instant.elapsed(),
+            Instant::Simulated(at) => {
+                let nanos = CLOCK.with(|c| c.get()).saturating_sub(*at);
+                Duration::new(
+                    (nanos / 1_000_000_000) as u64,
+                    (nanos % 1_000_000_000) as u32,
+                )
+            }
+        }
+    }
+}
+
+impl Sub<Duration> for Instant {
+    type Output = Instant;
+
+    fn sub(self, dur: Duration) -> Instant {
+        match self {
+            Instant::Real(instant) => Instant::Real(instant - dur),
+            Instant::Simulated(at) => Instant::Simulated(at - dur.as_nanos()),
+        }
+    }
+}
